@@ -288,7 +288,7 @@ func ruleScale(c *Ctx) {
 			}
 			base = a
 			stt := a.Type().Underlying().(*types.Pointer).Elem().Underlying().(*types.Struct)
-			fields[stt.Field(fa.Field).Name()] = n.Norm(st.Val).asAtom()
+			fields[fname(stt.Field(fa.Field))] = n.Norm(st.Val).asAtom()
 		})
 		want := map[string]string{"wrapped": "wrapped", "wrapperFunc": "wrap", "rect": "rect"}
 		c.Check(R1, "barcode.newScaledBC/fields", fn.Pos(), fmt.Sprint(fields) == fmt.Sprint(want), fmt.Sprint(want), fmt.Sprint(fields))
